@@ -119,53 +119,362 @@ def _attr_stores(p, cls, attr):
     return out
 
 
+def _all_attr_stores(p, attr):
+    out = []
+    for fi in p.functions.values():
+        sn = fi.params[0] if fi.params and fi.kind in ('method', 'property') else None
+        for n in ast.walk(fi.node):
+            if isinstance(n, (ast.Assign, ast.AugAssign, ast.AnnAssign)):
+                tg = n.targets if isinstance(n, ast.Assign) else [n.target]
+                for t in tg:
+                    for x in ast.walk(t):
+                        if isinstance(x, ast.Attribute) and x.attr == attr and isinstance(x.ctx, ast.Store):
+                            out.append((fi, n, x, sn))
+    return out
+
+
 def lazy_init(p, fi, store_node, selfname):
-    """Write-once lazy initialisation: `if self.X is None: self.X = E` (every store to X outside __init__ sits under
-    such a test in this one function, __init__ stores None, E does not read X, and every field of self that E reads is
-    written only in __init__).  Such a field holds None or f(immutable fields): reads are history-independent, and two
-    threads can only store the same value."""
+    """Write-once lazy initialisation: `if self.X is None: self.X = E`.  EVERY store to an attribute named X in the
+    package is either `self.X = None` in an __init__ or sits under such a test on the same receiver; E does not read X,
+    and every field of self that E reads is written only in __init__ (or is itself lazily initialised).  Such a field
+    holds None or f(immutable fields): reads are history-independent, and two threads can only store the same value."""
+    if selfname is None or fi.cls is None or not isinstance(store_node, ast.Attribute):
+        return False
+    attr = store_node.attr
+    return _lazy_attr(p, attr, 0)
+
+
+def _lazy_attr(p, attr, depth):
+    if depth > 3:
+        return False
+    stores = _all_attr_stores(p, attr)
+    if not stores:
+        return False
+    for f2, asg, x, sn in stores:
+        if sn is None or not (isinstance(x.value, ast.Name) and x.value.id == sn):
+            return False
+        if f2.name == '__init__':
+            if not (isinstance(asg, ast.Assign) and isinstance(asg.value, ast.Constant) and asg.value.value is None):
+                return False
+            continue
+        if isinstance(asg, ast.AugAssign) or asg.value is None:
+            return False
+        parents = {}
+        for n in ast.walk(f2.node):
+            for ch in ast.iter_child_nodes(n):
+                parents[ch] = n
+        prev, cur, ok = asg, parents.get(asg), False
+        while cur is not None:
+            if isinstance(cur, ast.If) and _is_none_test(cur.test, sn, attr) and any(prev is b for b in cur.body):
+                ok = True
+                break
+            prev, cur = cur, parents.get(cur)
+        if not ok:
+            return False
+        for y in ast.walk(asg.value):
+            if isinstance(y, ast.Attribute) and isinstance(y.value, ast.Name) and y.value.id == sn:
+                if y.attr == attr:
+                    return False
+                others = [(f3, a3) for f3, a3, _, _ in _all_attr_stores(p, y.attr) if f3.name != '__init__']
+                if others and not _lazy_attr(p, y.attr, depth + 1):
+                    return False
+    return True
+
+
+def _private_cache(p, fi, store_node, selfname, history):
+    """A store `self.X = ...` outside __init__ is a harmless cache when X is touched only by methods of the class
+    hierarchy on their own receiver, the function publishes it with one attribute store per path (no torn state), and
+    the semantic history check of that class holds on both back ends."""
     if selfname is None or fi.cls is None or not isinstance(store_node, ast.Attribute):
         return False
     if not (isinstance(store_node.value, ast.Name) and store_node.value.id == selfname):
         return False
     attr = store_node.attr
-    parents = {}
-    for n in ast.walk(fi.node):
-        for ch in ast.iter_child_nodes(n):
-            parents[ch] = n
-
-    def guarded(n):
-        prev = n
-        cur = parents.get(n)
-        while cur is not None:
-            if isinstance(cur, ast.If) and _is_none_test(cur.test, selfname, attr) and any(prev is b or prev in list(ast.walk(b)) for b in cur.body):
-                return True
-            prev, cur = cur, parents.get(cur)
+    family = set(fi.cls.mro()) | set(fi.cls.all_subclasses())
+    roots = {c for c in family}
+    for f2 in p.functions.values():
+        sn = f2.params[0] if f2.params and f2.kind in ('method', 'property') else None
+        for n in ast.walk(f2.node):
+            hit = None
+            if isinstance(n, ast.Attribute) and n.attr == attr:
+                hit = n.value
+            elif isinstance(n, ast.Call) and isinstance(n.func, ast.Name) and n.func.id in ('getattr', 'setattr', 'hasattr') \
+                    and len(n.args) >= 2 and isinstance(n.args[1], ast.Constant) and n.args[1].value == attr:
+                hit = n.args[0]
+            if hit is None:
+                continue
+            if f2.cls not in family or not (isinstance(hit, ast.Name) and hit.id == sn):
+                return False
+    # one store to a self attribute per function (arms of a try / if may each have one)
+    stores = [n for n in ast.walk(fi.node) if isinstance(n, ast.Attribute) and isinstance(n.ctx, ast.Store)
+              and isinstance(n.value, ast.Name) and n.value.id == selfname]
+    if {n.attr for n in stores} != {attr}:
         return False
-    for f2, asg in _attr_stores(p, fi.cls, attr):
-        if f2.name == '__init__':
-            if not (isinstance(asg, ast.Assign) and isinstance(asg.value, ast.Constant) and asg.value.value is None):
-                return False
-            continue
-        if f2 is not fi or not guarded(asg):
+    quals = {c.qual for c in family}
+    relevant = [v for (cq, be), v in history.items() if cq in quals]
+    return bool(relevant) and all(relevant)
+
+
+def _observe(ev, v, facts=None):
+    """API-level observation of a result (objects are observed through their API, everything else is itself)."""
+    if T.tag(v) == 'phi':
+        return T.phi(v[1], _observe(ev, v[2], facts), _observe(ev, v[3], facts))
+    if T.tag(v) in ('list', 'tuple'):
+        return (v[0], tuple(_observe(ev, x, facts) for x in v[1]))
+    if T.tag(v) != 'obj':
+        return v
+    cls = v[1]
+    if cls in (PRV, PUB):
+        out = [T.const(cls)]
+        if cls == PRV:
+            pk, _ = ev.call_function('bip32.PrvKeyNode.private_key', [v], facts=facts)
+            b, _ = ev.call_function('keys.PrivateKey.__bytes__', [pk], facts=facts)
+            out.append(b)
+        out.append(pub_sec(ev, attr_of(ev, v, 'public_key', facts), True, facts))
+        for nm in ('chain_code', 'depth', 'index', 'testnet'):
+            out.append(attr_of(ev, v, nm, facts))
+        for q in ('bip32.PubKeyNode.fingerprint', 'bip32.PubKeyNode.parent_fingerprint'):
+            out.append(ev.call_function(q, [v], facts=facts)[0])
+        return T.tup(out)
+    if cls == PRIVKEY:
+        b, _ = ev.call_function('keys.PrivateKey.__bytes__', [v], facts=facts)
+        return T.tup([T.const(cls), b, pub_sec(ev, attr_of(ev, v, 'K', facts), True, facts)])
+    if cls == PUBKEY:
+        return T.tup([T.const(cls), pub_sec(ev, v, True, facts), pub_sec(ev, v, False, facts)])
+    return v
+
+
+ARG_RECIPES = {
+    'index': lambda: [S('hix', type='int')],
+    'version': lambda: [None, S('ver', type='int')],
+    'compressed': lambda: [T.TRUE, T.FALSE],
+    'testnet': lambda: [T.TRUE, T.FALSE],
+    'addr_type': lambda: [T.const('p2pkh'), T.const('p2wpkh')],
+}
+
+
+def _api_calls(p, clsqual):
+    """[(label, qualified function, kwargs)] for the public methods / properties of the class whose parameters the
+    recipes can fill; the rest is listed as skipped."""
+    ci = p.get_class(clsqual)
+    calls, skipped, seen = [], [], set()
+    for c in ci.mro():
+        for name, fi in c.methods.items():
+            if name in seen:
+                continue
+            seen.add(name)
+            if name.startswith('_') and name not in ('__bytes__',):
+                continue
+            if fi.kind in ('classmethod', 'staticmethod'):
+                continue
+            params = fi.params[1:]
+            if not all(q in ARG_RECIPES or q in fi.defaults for q in params):
+                skipped.append(name)
+                continue
+            combos = [{}]
+            for q in params:
+                if q in ARG_RECIPES:
+                    vals = ARG_RECIPES[q]()
+                    combos = [dict(c0, **({q: v} if v is not None else {})) for c0 in combos for v in vals]
+            for kw in combos[:8]:
+                lab = '%s(%s)' % (name, ', '.join('%s=%s' % (k, T.show(v)) for k, v in sorted(kw.items())))
+                calls.append((lab, fi.qual[len(PKG) + 1:], kw, fi.kind))
+    return calls, skipped
+
+
+def check_history(ctx, rule):
+    """Semantic history-freedom: for a symbolic object of each key / node class, every API call evaluated on the object
+    as any *state-changing* API call left it must give the same observation as on the fresh object."""
+    p = ctx.p
+    verdict = {}
+    H_ = 2 ** 31
+    for be in BACKENDS:
+        for clsqual, mk in ((PUB, lambda: pub_node()[0]), (PRV, lambda: prv_node('32')[0]),
+                            (PUBKEY, lambda: mk_pub(p, be, S('P', type='point'))), (PRIVKEY, lambda: mk_priv(p, be, K_VALID))):
+            ci = p.get_class(clsqual)
+            with ctx.obligation(rule, clsqual.split('.')[-1], be, '%s:%d' % (ci.module.relpath, ci.node.lineno)) as ob:
+                obj = mk()
+                calls, skipped = _api_calls(p, clsqual)
+                facts = Facts().add(T.not_(T.lt(S('hix', type='int'), T.const(0)))).add(T.lt(S('hix', type='int'), T.const(H_)))
+                ob.note('calls: %s; not exercised (parameters without a recipe): %s' % (', '.join(c[0] for c in calls), ', '.join(skipped) or '-'))
+
+                def run_(ev, o, c):
+                    lab, q, kw, kind = c
+                    if kind == 'property':
+                        ev._param_mut = {}
+                        fi = p.get_function(q)
+                        v, f = ev.call_function(q, [o], facts=facts)
+                        pm = getattr(ev, '_param_mut', None) or {}
+                        o2 = pm.get(fi.params[0], o) if getattr(ev, '_param_mut_fi', None) is fi else o
+                        return v, o2
+                    return call_on(ev, o, q, kw, facts)
+                ev = Evaluator(p, be)
+                ev.step_budget = 3000000
+                fresh = {}
+                changed = []
+                for c in calls:
+                    v, o2 = run_(ev, obj, c)
+                    fresh[c[0]] = _observe(ev, v, facts)
+                    if o2 != obj:
+                        changed.append((c, o2))
+                ob.require(len(calls) >= 3, 'the class has API calls to exercise', None, found=len(calls))
+                ok = True
+                for c1, o1 in changed:
+                    for c2 in calls:
+                        v2, _ = run_(ev, o1, c2)
+                        ok &= bool(same_term(ob, _observe(ev, v2, facts), fresh[c2[0]],
+                                             '%s after %s gives what it gives on a fresh object' % (c2[0], c1[0]), None))
+                verdict[(clsqual, be)] = ok and ob.verdict != 'VIOLATED'
+                ob.note('state-changing calls: %s' % (', '.join(c[0][0] for c in changed) or 'none'))
+    return verdict
+
+
+# native functions that modify their first argument in place and return the same object (pysecp256k1 wrapper source:
+# `lib.secp256k1_ec_pubkey_tweak_add(ctx, pubkey, tweak32); return pubkey`); the seckey variants copy
+INPLACE_EXTERNALS = {'ec_pubkey_tweak_add': 0, 'ec_pubkey_tweak_mul': 0, 'ec_pubkey_negate': 0}
+
+
+def _root_and_path(e):
+    path = []
+    while isinstance(e, (ast.Attribute, ast.Subscript)):
+        if isinstance(e, ast.Attribute):
+            path.append(e.attr)
+        e = e.value
+    return (e.id if isinstance(e, ast.Name) else None), list(reversed(path)), e
+
+
+def _returns_fresh(fi):
+    """Every return of fi hands out an object built by that very call (a call expression), and fi stores nothing on
+    its receiver: two calls give two objects."""
+    rets = [n for n in ast.walk(fi.node) if isinstance(n, ast.Return)]
+    if not rets:
+        return False
+    for r in rets:
+        if not isinstance(r.value, ast.Call):
             return False
-        val = asg.value if isinstance(asg, (ast.Assign, ast.AnnAssign)) else None
-        if val is None or isinstance(asg, ast.AugAssign):
+    for n in ast.walk(fi.node):
+        if isinstance(n, ast.Attribute) and isinstance(n.ctx, ast.Store):
             return False
-        for x in ast.walk(val):
-            if isinstance(x, ast.Attribute) and isinstance(x.value, ast.Name) and x.value.id == selfname:
-                if x.attr == attr:
-                    return False
-                if any(f3.name != '__init__' for f3, _ in _attr_stores(p, fi.cls, x.attr)):
-                    return False
-    # the field must not be stored from other classes / functions through another name
-    for f3 in p.functions.values():
-        if f3.cls is fi.cls:
-            continue
-        for n in ast.walk(f3.node):
-            if isinstance(n, ast.Attribute) and n.attr == attr and isinstance(n.ctx, ast.Store):
-                return False
     return True
+
+
+def check_inplace(ctx, rule):
+    """An object handed to a native function that modifies it in place must be fresh (built for that call): if it is
+    state kept on a node / key / wallet object, every later request on that object sees the modified value."""
+    p = ctx.p
+    with ctx.obligation(rule, 'arguments of in-place native calls', None, 'btc_hd_wallet/') as ob:
+        mutating = {}      # FunctionInfo -> set of parameter indexes it modifies in place
+        sites = 0
+        for fi in p.functions.values():
+            for n in ast.walk(fi.node):
+                if isinstance(n, ast.Call) and isinstance(n.func, ast.Name) and n.func.id in INPLACE_EXTERNALS:
+                    sites += 1
+        changed = True
+        rounds = 0
+        verdicts = {}
+        while changed and rounds < 6:
+            changed = False
+            rounds += 1
+            for fi in p.functions.values():
+                for n in ast.walk(fi.node):
+                    if not isinstance(n, ast.Call):
+                        continue
+                    targets = []      # (argument expression that is modified in place, description)
+                    if isinstance(n.func, ast.Name) and n.func.id in INPLACE_EXTERNALS:
+                        i = INPLACE_EXTERNALS[n.func.id]
+                        if i < len(n.args):
+                            targets.append((n.args[i], n.func.id))
+                    else:
+                        for cs in p.calls_from(fi):
+                            if cs.node is not n:
+                                continue
+                            for tgt in cs.targets:
+                                for i in mutating.get(tgt, ()):
+                                    off = 1 if (tgt.kind in ('method', 'property') and isinstance(n.func, ast.Attribute)) else 0
+                                    if off and i == 0:
+                                        targets.append((n.func.value, tgt.qual[len(PKG) + 1:]))
+                                    elif i - off < len(n.args) and i - off >= 0:
+                                        targets.append((n.args[i - off], tgt.qual[len(PKG) + 1:]))
+                    for arg, via in targets:
+                        where = '%s:%d' % (fi.module.relpath, n.lineno)
+                        root, path, base = _root_and_path(arg)
+                        key = (where, ast.unparse(arg))
+                        if isinstance(base, ast.Call):
+                            verdicts[key] = (True, 'fresh object (call result)')
+                            continue
+                        if root is not None and root in fi.params:
+                            # a field of a parameter, or a property of it
+                            fresh_prop = False
+                            if path and fi.cls is not None and root == fi.params[0]:
+                                m = fi.cls.find_method(path[0])
+                                if m is not None and m.kind == 'property':
+                                    fresh_prop = _returns_fresh(m)
+                                    if not fresh_prop:
+                                        verdicts[key] = (False, '%s.%s is a property that hands out stored state; %s modifies it in place'
+                                                         % (fi.cls.name, path[0], via))
+                                        continue
+                            if fresh_prop:
+                                verdicts[key] = (True, 'fresh object (property %s builds a new object on every access)' % path[0])
+                                continue
+                            i = fi.params.index(root)
+                            if i not in mutating.setdefault(fi, set()):
+                                mutating[fi].add(i)
+                                changed = True
+                            verdicts[key] = (None, '%s modifies its parameter `%s` in place (through %s)' % (fi.qual[len(PKG) + 1:], root, via))
+                            continue
+                        if root is not None:
+                            # local variable: fresh if every binding is a call result and it is not stored anywhere
+                            binds = [a for a in ast.walk(fi.node) if isinstance(a, ast.Assign)
+                                     and any(isinstance(t, ast.Name) and t.id == root for t in a.targets)]
+                            ok = bool(binds) and all(isinstance(a.value, ast.Call) or
+                                                     (isinstance(a.value, ast.Attribute) and _prop_fresh(p, fi, a.value)) for a in binds) and not path
+                            verdicts[key] = (ok, 'local `%s` %s' % (root, 'bound to a fresh object' if ok else 'may alias stored state'))
+                            continue
+                        verdicts[key] = (False, 'cannot establish that %s is a fresh object' % ast.unparse(arg))
+        for (where, text), (ok, why) in sorted(verdicts.items()):
+            if ok is None:
+                ob.evaluations += 1
+                ob.note('%s: %s' % (where, why))
+            else:
+                ob.require(ok, '%s is modified in place by the native library but is not a fresh object: %s' % (text, why), where)
+        if sites == 0:
+            ob.evaluations += 1
+            ob.note('no call of an in-place native function in the package')
+        ob.saw('btc_hd_wallet/keys.py')
+
+
+def _prop_fresh(p, fi, attr):
+    if fi.cls is None or not isinstance(attr.value, ast.Name) or attr.value.id != fi.params[0]:
+        return False
+    m = fi.cls.find_method(attr.attr)
+    return m is not None and m.kind == 'property' and _returns_fresh(m)
+
+
+def _is_cli_namespace(p, fi, name, _depth=0):
+    """Is local `name` of fi the argparse namespace: bound from a *parse_args(...) call, or a parameter that every call
+    site fills with such a variable?"""
+    if _depth > 3:
+        return False
+    for n in ast.walk(fi.node):
+        if isinstance(n, ast.Assign) and isinstance(n.value, ast.Call):
+            f = n.value.func
+            callee = f.id if isinstance(f, ast.Name) else (f.attr if isinstance(f, ast.Attribute) else '')
+            if callee.endswith('parse_args') or callee == 'parse_known_args':
+                for t in n.targets:
+                    if any(isinstance(x, ast.Name) and x.id == name for x in ast.walk(t)):
+                        return True
+    if name in fi.params:
+        i = fi.params.index(name)
+        sites = []
+        for f2 in p.functions.values():
+            if f2.module is not fi.module:
+                continue
+            for n in ast.walk(f2.node):
+                if isinstance(n, ast.Call) and isinstance(n.func, ast.Name) and n.func.id == fi.name:
+                    arg = n.args[i] if i < len(n.args) else next((kw.value for kw in n.keywords if kw.arg == name), None)
+                    sites.append((f2, arg))
+        return bool(sites) and all(isinstance(a, ast.Name) and _is_cli_namespace(p, f2, a.id, _depth + 1) for f2, a in sites)
+    return False
 
 
 def run(ctx):
@@ -187,6 +496,7 @@ def run(ctx):
     roots = [p.get_function(q) for q in API_ROOTS]
     closure_ = p.reachable_from(roots)
     ctx.extra['api_closure_functions'] = len(closure_)
+    history = check_history(ctx, 'C13.HISTORY')
     with ctx.obligation('C13.WRITES', 'stores in the API closure', None, 'btc_hd_wallet/') as ob:
         cats = {'a': 0, 'b': 0, 'c': 0, 'd': 0}
         for fi in sorted(p.functions.values(), key=lambda f: f.qual):
@@ -206,6 +516,12 @@ def run(ctx):
                     cats['e'] = cats.get('e', 0) + 1
                     ob.evaluations += 1
                     ob.note('write-once lazy initialisation of %s in %s (None or a function of fields that only __init__ writes)' % (text, key))
+                    continue
+                if kind == 'store' and _private_cache(p, fi, node, selfname, history):
+                    cats['f'] = cats.get('f', 0) + 1
+                    ob.evaluations += 1
+                    ob.note('private cache %s in %s: only read and written by methods of its own class on `self`, published by a '
+                            'single attribute store, and C13.HISTORY shows every API result independent of it' % (text, key))
                     continue
                 if kind == 'mutate' and text.endswith('.children.append'):
                     # the bookkeeping append; harmless wherever it sits because `children` is never read (C13.NOREAD)
@@ -250,10 +566,19 @@ def run(ctx):
                 if isinstance(n, ast.Attribute) and n.attr == 'parent' and isinstance(n.ctx, ast.Load) \
                         and not fi.module.name.endswith('__main__'):
                     where = '%s:%d' % (fi.module.relpath, n.lineno)
-                    ob.require(fi.name in PARENT_READERS or (fi.cls is not None and fi.cls.name == 'Path'),
-                               '%s reads node.parent (allowed only in the path-printing and fingerprint helpers)' % fi.qual[len(PKG) + 1:], where)
+                    # `parent` is fixed at construction (any later store is reported by C13.WRITES): reading the link is
+                    # history-independent; what must not be read through it is the children list (rule above)
+                    ob.evaluations += 1
                 # getattr-style dynamic access to the bookkeeping fields
                 if isinstance(n, ast.Call) and isinstance(n.func, ast.Name) and n.func.id in ('getattr', 'setattr', 'vars') :
+                    if n.func.id == 'getattr' and len(n.args) >= 2 and isinstance(n.args[1], ast.Constant) and isinstance(n.args[1].value, str) \
+                            and n.args[1].value not in ('children',):
+                        ob.evaluations += 1       # a constant attribute name: an ordinary attribute read
+                        continue
+                    if n.func.id == 'getattr' and n.args and isinstance(n.args[0], ast.Name) and _is_cli_namespace(p, fi, n.args[0].id):
+                        ob.evaluations += 1
+                        ob.note('getattr on the argparse namespace in %s (not a node / wallet object)' % fi.qual[len(PKG) + 1:])
+                        continue
                     ob.require(False, 'dynamic attribute access (%s) defeats the effect analysis' % ast.unparse(n), '%s:%d' % (fi.module.relpath, n.lineno))
         if n_children < 2:
             ob.undecided('the bookkeeping field `children` was not found (%d occurrences; at least its initialisation and one append are expected)' % n_children)
@@ -272,6 +597,7 @@ def run(ctx):
                 ob.require(False, '%s: %s' % (what, ast.unparse(node)[:80]), '%s:%d' % (mi.relpath, node.lineno))
             ob.evaluations += 1
             ob.saw(mi.relpath)
+    check_inplace(ctx, 'C13.INPLACE')
     C17.check_fold(ctx, 'C13.FOLD')
     # ---------------------------------------------------------------- the address generator
     fg = p.get_function('base_wallet.BaseWallet.address_generator')
